@@ -34,7 +34,7 @@ CHECKS = {
              note='memory operations are not reference edges (one-sided); comma-ok flags and cap() excluded; uninstantiated generic bodies skipped (never reachable under InstantiateGenerics)', ref='§6 C08'),
 
  'C10': dict(engine='P', technique='exhaustive enumeration of all 0/1 specification matrices (arity<=3, results<=2) x call forms, oracle = the matrix',
-             text='Every Args/Rets matrix for every signature of arity <=3 over {string,*string} with <=2 results, as function, method and interface-method contract (plus a contradicting function contract), with a function body implementing the complement flow: every listed flow must be reported and nothing outside the closure of the matrix (eager and on-demand).',
+             text='Every Args/Rets matrix for every signature of arity <=3 over {string,*string} with <=2 results, as function, method and interface-method contract (plus a contradicting function contract), with a function body implementing the complement flow: every listed flow must be reported and nothing outside the closure of the matrix (eager and on-demand); plus programs in which one function is reachable under two contract keys with different matrices, where each call site must follow its own contract.',
              note='over-approximation inside the transitive closure of the matrix is tolerated', ref='§6 C10'),
 
  'C09': dict(engine='P', technique='exhaustive enumeration of the predefined-summary table (signature conformance) + one-call programs per (entry, argument position) executed natively with tokens vs real taint analysis (tool load path)',
